@@ -24,5 +24,5 @@ d,res,first=sys.argv[1:4]
 head=subprocess.check_output(['git','-C','/repo','log','--format=%h','-1']).decode().strip()
 json.dump({"repo_head":head,"result":res,"first":first},open(d+"/recheck.json","w"),indent=1)
 P
-  git -C /repo worktree remove --force $wt 2>/dev/null; rm -rf $wt /verif/work/alt-*
+  git -C /repo worktree remove --force $wt 2>/dev/null; rm -rf $wt /verif/work/alt-$(printf %s "$wt" | sha1sum | cut -c1-8)
 done
